@@ -39,6 +39,8 @@ pub struct IoPlan {
     /// The stop event (the store the signal handler performs) happens when this many input bytes have been
     /// delivered through the pipe seam - also while a thread computes between two decision points.
     pub stop_at_input_byte: Option<u64>,
+    /// Seed of the bytes `getrandom` returns inside the run (None: the real system call).
+    pub entropy_seed: Option<u64>,
 }
 
 #[derive(Debug, Default, Clone)]
@@ -118,6 +120,24 @@ pub fn clock_jumps_fired() -> u64 {
     CLOCK_JUMPS.load(std::sync::atomic::Ordering::SeqCst)
 }
 
+static ENTROPY_SEED: std::sync::atomic::AtomicU64 = std::sync::atomic::AtomicU64::new(0);
+static ENTROPY_CALLS: std::sync::atomic::AtomicU64 = std::sync::atomic::AtomicU64::new(0);
+
+/// Next seed for a `getrandom` call inside the run (None: entropy is not seeded in this run).
+pub fn entropy_next() -> Option<u64> {
+    use std::sync::atomic::Ordering::SeqCst;
+    let s = ENTROPY_SEED.load(SeqCst);
+    if s == 0 {
+        return None;
+    }
+    let n = ENTROPY_CALLS.fetch_add(1, SeqCst) + 1;
+    Some(crate::rng::mix(&[s, n]) | 1)
+}
+
+pub fn entropy_calls() -> u64 {
+    ENTROPY_CALLS.load(std::sync::atomic::Ordering::SeqCst)
+}
+
 /// Called by the scheduler at the step that performs the signal handler's store.
 pub fn mark_stop() {
     use std::sync::atomic::Ordering::SeqCst;
@@ -149,6 +169,8 @@ fn lock_io() -> std::sync::MutexGuard<'static, Option<IoState>> {
 }
 
 pub fn begin(plan: IoPlan) {
+    ENTROPY_CALLS.store(0, std::sync::atomic::Ordering::SeqCst);
+    ENTROPY_SEED.store(plan.entropy_seed.map(|s| s | 1).unwrap_or(0), std::sync::atomic::Ordering::SeqCst);
     CLOCK_SKEW_NS.store(0, std::sync::atomic::Ordering::SeqCst);
     CLOCK_JUMPS.store(0, std::sync::atomic::Ordering::SeqCst);
     CLOCK_RNG.store(plan.clock_jumps.map(|s| s | 1).unwrap_or(0), std::sync::atomic::Ordering::SeqCst);
